@@ -74,3 +74,41 @@ func (r *Router) VerifTables() (stable map[string]string, regular, irregular map
 func (r *Router) VerifScope() (prefix string, groupHandlers int, globalHandlers int) {
 	return r.currentGroupPrefix, len(r.currentGroupHandlers), len(r.handlers)
 }
+
+// Direct entry points to unexported helpers, so that the harness can compare them (and the Lean
+// definitions translated from them) on generated inputs.
+
+// VerifFormatPath calls Router.formatPath on a router with the given StrictLastSlash setting.
+func VerifFormatPath(strict bool, path string) string {
+	r := &Router{strictLastSlash: strict}
+	return r.formatPath(path)
+}
+
+// VerifSimpleFmtPath calls simpleFmtPath.
+func VerifSimpleFmtPath(path string) string { return simpleFmtPath(path) }
+
+// VerifIsFixedPath calls isFixedPath.
+func VerifIsFixedPath(path string) bool { return isFixedPath(path) }
+
+// VerifQuotePointChar calls quotePointChar.
+func VerifQuotePointChar(path string) string { return quotePointChar(path) }
+
+// VerifCheckAndParseOptional calls checkAndParseOptional (it panics on misplaced brackets).
+func VerifCheckAndParseOptional(path string) string { return checkAndParseOptional(path) }
+
+// VerifFormatMethods calls formatMethodsWithDefault.
+func VerifFormatMethods(methods []string, def string) []string {
+	return formatMethodsWithDefault(methods, def)
+}
+
+// VerifIsSupportedMethod calls isSupportedMethod.
+func VerifIsSupportedMethod(method string) bool { return isSupportedMethod(method) }
+
+// VerifParseParamRoute runs parseParamRoute on a fresh route with the given (already formatted) path
+// and returns the first-segment key and the parsed internals (it panics where registration would).
+func VerifParseParamRoute(path string) (first, start, spath, regex string, matches []string) {
+	rt := &Route{path: path}
+	first = (&Router{}).parseParamRoute(rt)
+	start, spath, regex, matches = rt.VerifRouteInfo()
+	return
+}
